@@ -770,7 +770,15 @@ class SAMIParser(HTMLParser):
         Parse styling via cssutils modules
         :rtype: dict
         """
-        sheet = parseString(css)
+        # cssutils switches its global `log.raiseExceptions` off while it
+        # parses and does not switch it back on when the parse itself fails
+        # (e.g. on `color: rgb(1,2)`); restore it, or every later document
+        # with an invalid color would be read differently
+        raise_exceptions = log.raiseExceptions
+        try:
+            sheet = parseString(css)
+        finally:
+            log.raiseExceptions = raise_exceptions
         style_sheet = {}
 
         for rule in sheet:
